@@ -152,6 +152,9 @@ def _borderline(kind, ndim, L, dims):
         ev.append(("rotate90", (dims[0], dims[1], 1, tuple([1e17 * L] * ndim))))
         ev.append(("rotate90", (dims[1], dims[0], 2, tuple([0.0] * (ndim - 1) + [1e17 * L]))))
     ev.append(("translate", (tuple([1e17 * L] * ndim),)))
+    # graded distances along the first axis: floating point absorbs a one-cell subregion before it absorbs the region
+    for k in (52, 53, 54, 55):
+        ev.append(("translate", (tuple([float(2 ** k) * L] + [0.0] * (ndim - 1)),)))
     return ev
 
 
